@@ -56,6 +56,7 @@ def _execute(mod, plan):
     try:
         res = mod.execute(plan)
         res.setdefault("harness_error", None)
+        res["violations"] = [v for v in res["violations"] if v.get("property", mod.ID) == mod.ID]
         return res
     except Exception:
         return {"violations": [], "probes": {}, "faults": {}, "sig": "harness-error", "nontrivial": False,
